@@ -153,3 +153,16 @@ Theorem C09_run_level_nonvacuous :
   | _ => false
   end = true.
 Proof. vm_compute. reflexivity. Qed.
+
+From SR Require Model.SimSkeleton Model.SimSkeletonInterp Gen.RunSkeleton Proofs.RunSkeletonProofs Proofs.RunSkeletonInterpProofs.
+
+(* WHERE the exit checks sit, as the source says it.  `go2coq RunSkeleton` translates run.go, action.go and death.go
+   into a first-order table of steps (Gen/RunSkeleton.v, regenerated on every run).  The table equals the pinned
+   table Model/SimSkeleton.v - exitCheck is the tail call of endTurn (after the TurnEnd event), the early return of
+   executeQueue (guard `phase < info.ActionEnd && !sim.IsCharacter(sim.Active)`, and a side wiped out at the head of
+   a drain round), and follows the death check after every executed insert; its body is the pinned switch (loss,
+   win, cycle limit, in this order) with Termination emitted before `return nil, nil`; Run stores TotalAV after the
+   loop - and the interpretation of the generated state functions over the model's own exit_check is Sim.one_turn. *)
+Theorem C09_run_skeleton_is_the_source : Proofs.RunSkeletonInterpProofs.run_skeleton_tie.
+Proof. exact Proofs.RunSkeletonInterpProofs.run_skeleton_is_the_source. Qed.
+Print Assumptions C09_run_skeleton_is_the_source.
